@@ -190,6 +190,7 @@ func runC19(args []string) error {
 		plainOut, plainEnd, plainRes string
 		g                            [2]*c19CFG
 		toks                         [2][]c19Tok
+		traceOut, traceEnd           [2]string
 		cases                        []c19Case
 		skip                         string
 	}
@@ -218,10 +219,11 @@ func runC19(args []string) error {
 		tab := c19pcTab{}
 		for v := 0; v < 2; v++ {
 			st, dump, so, end := c19Trace(p.Src, v == 1, timeout)
-			if so != pr.plainOut || end != pr.plainEnd {
+			if v == 0 && (so != pr.plainOut || end != pr.plainEnd) {
 				pr.skip = fmt.Sprintf("instrumented run differs from the plain run (%s vs %s)", end, pr.plainEnd)
 				return
 			}
+			pr.traceOut[v], pr.traceEnd[v] = so, end
 			tg[v] = c19MakeCFG(dump, c19pcTab{})
 			traces[v] = st
 			if len(st) > steps {
@@ -243,7 +245,15 @@ func runC19(args []string) error {
 				{Kind: "markers/continue", Lines: p.Markers, Reqs: []c19Req{"c"}},
 				{Kind: "none/step-into", Reqs: c19Rep("i", steps+8)},
 			}
-			if p.Tag == "loop-condition" {
+			if p.Tag == "two-globals" {
+				specs = []c19SessSpec{
+					{Kind: "none/continue", Reqs: []c19Req{"c"}},
+					{Kind: "functions/continue", Funcs: []string{"f1"}, Reqs: []c19Req{"c"}},
+					{Kind: "one-line/continue", Lines: []int{13}, Reqs: []c19Req{"c"}},
+					{Kind: "invalid-line/continue", Lines: []int{999}, Reqs: []c19Req{"c"}},
+					{Kind: "all-lines/step-into", Lines: all, Reqs: c19Rep("i", steps+8)},
+				}
+			} else if p.Tag == "loop-condition" {
 				specs = append(specs, c19SessSpec{Kind: "loop-line/continue", Lines: []int{6}, Reqs: []c19Req{"c"}})
 			} else {
 				specs = append(specs, c19SessSpec{Kind: "else-line/continue", Lines: []int{9}, Reqs: []c19Req{"c"}},
@@ -371,6 +381,11 @@ func runC19(args []string) error {
 					if !c.Exact {
 						c.Region = "mistrack"
 					}
+					if len(sp.Lines) > 0 && p.Globals >= 2 {
+						// a line request makes SetBreakpoints generate closures before Execute links the
+						// package-level variable declarations
+						c.Region = "linebp-globals"
+					}
 				}
 			} else {
 				c.Skip = "no dump"
@@ -412,6 +427,10 @@ func runC19(args []string) error {
 			shardOf[e.pi] = best
 			load[best] += e.w
 		}
+	}
+	trace0 := make([][]int, len(progs))
+	for pi, pr := range results {
+		trace0[pi] = c19MarkerTrace(pr.plainOut)
 	}
 	id := 0
 	funcID := func(p c19Prog, name string) int {
@@ -478,6 +497,24 @@ func runC19(args []string) error {
 			}
 			sm.ImplComparisons++
 			g := pr.g[c.Toks]
+			if pr.toks[0] == nil {
+				sm.count("model-skipped")
+				sm.Notes = append(sm.Notes, fmt.Sprintf("session %d not evaluated in the model: no plain operation sequence", id))
+				continue
+			}
+			if !wroteToks[0] {
+				wroteToks[0] = true
+				g0 := pr.g[0]
+				if g0 == nil {
+					g0 = g
+				}
+				nodesTxt := c19CoqNodes(g0, p)
+				fmt.Fprintf(b, "Definition p%d_0 := mk_nodes (%s)%%N.\n", pi, nodesTxt)
+				written[nodesTxt] = fmt.Sprintf("p%d_0", pi)
+				toksTxt := c19CoqToks(pr.toks[0])
+				fmt.Fprintf(b, "Definition a%d_0 := mk_acts (%s)%%N.\n", pi, toksTxt)
+				written[toksTxt] = fmt.Sprintf("a%d_0", pi)
+			}
 			if !wroteToks[c.Toks] {
 				wroteToks[c.Toks] = true
 				nodesTxt := c19CoqNodes(g, p)
@@ -534,8 +571,9 @@ func runC19(args []string) error {
 				ref = nil // no reference for the events of a terminated session
 				exact = 2
 			}
-			fmt.Fprintf(b, "Definition c%d := (Build_session %d p%d_%d %s %s a%d_%d %s %s %s %s %s %s %s %d)%%N.\n", id, id, pi, c.Toks,
-				coqList(lines), coqList(funcs), pi, c.Toks, coqList(reqs), coqList(markers), coqList(evs), coqList(oflags), coqList(vlines), coqList(vfuncs), c19Ints(ref), exact)
+			fmt.Fprintf(b, "Definition c%d := (Build_session %d p%d_%d %s %s a%d_%d a%d_0 %s %s %s %s %s %s %s %s %s %d)%%N.\n", id, id, pi, c.Toks,
+				coqList(lines), coqList(funcs), pi, c.Toks, pi, coqList(reqs), coqList(markers), coqList(evs), coqList(oflags), coqList(vlines), coqList(vfuncs),
+				c19Ints(c19MarkerTrace(c.Ses.Stdout)), c19Ints(ref), c19Ints(trace0[pi]), exact)
 			counts[sh]++
 			fmt.Fprintf(b, "Definition r%d := Eval vm_compute in (c19_mis_y [c%d], c19_mis_g [c%d]).\n", id, id, id)
 		}
@@ -565,6 +603,9 @@ func runC19(args []string) error {
 		sm.CasesFiles = append(sm.CasesFiles, name)
 	}
 	sort.Strings(sm.CasesFiles)
+	if sm.CasesFiles == nil {
+		sm.CasesFiles = []string{}
+	}
 	sm.DistinctNontriv = len(distinct)
 	sm.Rule = "one evaluation = one debug session (program x breakpoint set x request list) driven through the public Debugger API and compared with the plain Eval of the same program and with the marker lines in the program's own output; " +
 		"programs: seeded sequential programs (functions, recursion, closures, deferred closures, recovered and unrecovered panics, if/else, three-clause loops; in the region stream also condition-only loops, switch, same-generator branches) plus two fixed witnesses; " +
